@@ -77,6 +77,44 @@ def configs(tier, seed):
     out.append({"kind": "csr_bridge", "cfg": {"aw": 5, "dw": 32, "g": 8, "regs": [["x", [["c", "p"], ["i", 3]], 40, None], ["y", [], 1, 8]]}})
     out.append({"kind": "csr_bridge", "cfg": {"aw": 4, "dw": 16, "g": 8, "regs": [["only", [], 16, None]]}})
     out.append({"kind": "csr_bridge", "cfg": {"aw": 4, "dw": 8, "g": 8, "regs": []}})
+    # ROUTE INDEPENDENCE: the same final configuration reached by another legal route through the API (other spellings of an
+    # argument, refused calls in between, an elaboration part-way, registers added after the multiplexer was constructed, the
+    # image assigned through a property) must give the very same hardware as the plain route
+    def reroute(kind, c_):
+        c2 = dict(c_)
+        for k_ in ("refused_before", "elab_before", "enum_features", "late", "elab_between", "init_as", "ctor_init"):
+            c2.pop(k_, None)
+        plain = dict(c2)
+        if kind in ("csr_decoder", "wb_decoder"):
+            n_ = len(c2["subs"])
+            if rng.random() < 0.6:
+                c2["refused_before"] = sorted(set(rng.sample(range(n_ + 1), min(n_ + 1, rng.randint(1, 2)))))
+            if n_ >= 2 and rng.random() < 0.6:
+                c2["elab_before"] = [rng.randint(1, n_ - 1)]
+            if kind == "wb_decoder" and rng.random() < 0.5:
+                c2["enum_features"] = True
+        elif kind == "arbiter":
+            if rng.random() < 0.6:
+                c2["refused_before"] = sorted(set(rng.sample(range(c2["n"] + 1), min(c2["n"] + 1, rng.randint(1, 2)))))
+            if c2["n"] >= 2 and rng.random() < 0.6:
+                c2["elab_before"] = [rng.randint(1, c2["n"] - 1)]
+            if rng.random() < 0.5:
+                c2["enum_features"] = True
+        elif kind == "mux":
+            if len(c2["regs"]) >= 2:
+                c2["late"] = rng.randint(1, len(c2["regs"]) - 1)
+                c2["elab_between"] = rng.random() < 0.5
+        elif kind == "sram":
+            if c2["init"]:
+                c2["init_as"] = rng.choice(["generator", "tuple", "iter"])
+        return (plain, c2) if c2 != plain else None
+    for kind, gen, n_ in (("csr_decoder", C06.configs, 10), ("wb_decoder", C07.configs, 12), ("arbiter", lambda t, s_: arbiter.configs(t, s_, 19), 10),
+                          ("mux", lambda t, s_: mux.configs(t, s_, 19), 12), ("sram", C15.configs, 6)):
+        lst = list(gen(tier, seed))
+        for c_ in (rng.sample(lst, min(len(lst), n_ if tier == "quick" else 4 * n_))):
+            r_ = reroute(kind, c_)
+            if r_ is not None:
+                out.append({"kind": kind, "cfg": r_[1], "plain_route": r_[0]})
     # parameters OUTSIDE the documented domains: the constructor may turn them down in whatever way it likes (then nothing was
     # "built from accepted parameters"), but a component it does hand out must elaborate or be refused explicitly
     for what, kw in ODD_PARAMS:
@@ -410,6 +448,22 @@ def check_config(ctx, c):
         except Exception as e:
             result("second_instance_same_hardware", False, f"building/elaborating a second instance raised {type(e).__name__}: {e} at {where(e)}",
                    f"second_instance_same_hardware:{kind}:{type(e).__name__}")
+        if c.get("plain_route") is not None:
+            try:
+                comp_p, mm_p = build(kind, c["plain_route"])
+                ports_p = [sg.as_value() if hasattr(sg, "as_value") else sg for _p, _m, sg in comp_p.signature.flatten(comp_p)]
+                signal.alarm(180)
+                text_p = rtlil.convert(comp_p, ports=ports_p)
+                result("route_independent", text_p == texts[0],
+                       "" if text_p == texts[0] else "the same configuration reached by another legal route (see the configuration's extra keys) "
+                                                     f"elaborates to different hardware than the plain route (RTLIL lengths {len(texts[0])} vs {len(text_p)})",
+                       f"route_independent:{kind}")
+            except _Timeout:
+                raise
+            except Refused:
+                result("route_independent", False, "the plain route is refused although the other route was accepted", f"route_independent:{kind}:refused")
+            except Exception as e:
+                result("route_independent", False, f"the plain route raised {type(e).__name__}: {e} at {where(e)}", f"route_independent:{kind}:{type(e).__name__}")
         after = snapshot(mm)
         result("metadata_kept", before == after, f"memory map changed by elaboration: {before} -> {after}" if before != after else "",
                f"metadata_kept:{kind}")
